@@ -350,7 +350,7 @@ End Inv.
 Definition base_glue : list string := ["as_ref"; "map"; "unwrap_or"; "iter"; "position"; "and_then"].
 Definition spawn_glue : list string := ["spawn"; "unwrap"; "join"].
 
-Definition allowedj (j : jout) (c : construct) : Prop :=
+Definition allowedj (JX : Prop) (j : jout) (c : construct) : Prop :=
   let cfg := j_cfg j in
   let path := opt_default (j_fcp j) [] in
   match c with
@@ -363,12 +363,18 @@ Definition allowedj (j : jout) (c : construct) : Prop :=
   | KGlue m => In m base_glue \/ (is_async cfg = false /\ is_spawn cfg = true /\ In m spawn_glue)
   | KIfLetSome | KMatchIdx => is_try cfg = true /\ j_transpose j = true
   | KMatchOk => is_try cfg = true /\ j_transpose j = false
-  | KJuxt => is_async cfg = true
+  | KJuxt => is_async cfg = true /\ JX          (* plain juxtaposition: see HJX below *)
   end.
 
 Section Jout.
   Variable j : jout.
-  Notation Qj := (allowedj j).
+  (* JX = "a juxtaposition may occur".  It can only arise in an async step k < j_max with at most one active branch
+     whose number of generated chains is not one. *)
+  Variable JX : Prop.
+  Hypothesis HJX : forall k vars defs chains,
+    k < j_max j -> gen_branches j k vars 0 (j_chains j) = Ok (defs, chains) ->
+    active_count j k <= 1 -> (forall c, chains <> [c]) -> JX.
+  Notation Qj := (allowedj JX j).
   Notation okEj := (okE Qj).
   Notation okSj := (okS Qj).
   Notation okEsj := (okEs Qj).
@@ -431,17 +437,20 @@ Section Jout.
       apply okE_RGlue; [right; cbn; tauto| |constructor]. apply indexed_sr_okc.
   Qed.
 
-  Lemma gen_step_okc k vars sr stmts : gen_step j k vars sr = Ok stmts -> okSsj stmts.
+  Lemma gen_step_okc k vars sr stmts : k < j_max j -> gen_step j k vars sr = Ok stmts -> okSsj stmts.
   Proof.
-    unfold gen_step. intros H. inv_bind H. destruct x as [defs chains].
+    unfold gen_step. intros Hk H. inv_bind H. destruct x as [defs chains].
     destruct (gen_branches_okc _ _ _ _ _ _ E) as [Hd Hc].
     destruct (is_async (j_cfg j)) eqn:Ea.
     - inversion H; subst. apply okSs_app; auto. constructor; [|constructor]. apply okS_SLet.
-      destruct (Nat.ltb 1 (active_count j k)).
+      destruct (Nat.ltb 1 (active_count j k)) eqn:El.
       + destruct (j_joiner j) eqn:Ej; apply okE_RCall; auto with okc.
         apply okE_RJoinMac. cbn. auto.
-      + apply okE_RAwait; [exact Ea|]. destruct chains as [|c [|c' l]]; try (apply okE_RJuxt; auto).
-        now inversion Hc.
+      + apply Nat.ltb_ge in El. apply okE_RAwait; [exact Ea|].
+        destruct chains as [|c [|c' l]].
+        * apply okE_RJuxt; auto. cbn. split; [exact Ea|]. eapply HJX; eauto. intros c; discriminate.
+        * now inversion Hc.
+        * apply okE_RJuxt; auto. cbn. split; [exact Ea|]. eapply HJX; eauto. intros c0; discriminate.
     - destruct (thread_builders j k sr) as [tbs sjs] eqn:Et. destruct (thread_builders_okc _ _ _ _ Et) as [H1 H2].
       inversion H; subst. apply okSs_app; [exact H1|]. apply okSs_app; [exact Hd|]. apply okSs_cons; [|exact H2].
       apply okS_SLet.
@@ -500,14 +509,15 @@ Section Jout.
   Qed.
 
   Lemma gen_steps_okc pats vars : forall n k r,
+    k + n = j_max j ->
     gen_steps j pats vars k n = Ok r -> forall ss e, r = Some (ss, e) -> okSsj ss /\ okEj e.
   Proof.
-    induction n as [|n IH]; intros k r H ss e Hr; cbn [gen_steps] in H.
+    induction n as [|n IH]; intros k r Hkn H ss e Hr; cbn [gen_steps] in H.
     - inversion H; subst. discriminate.
     - inv_bind H. inv_bind H. inv_bind H. rewrite Hr in H. inversion H; subst.
       eapply join_steps_okc; [| |exact E1].
-      + eapply gen_step_okc; eauto.
-      + intros nss ne ->. eapply IH; eauto.
+      + eapply gen_step_okc; [|eauto]. lia.
+      + intros nss ne ->. eapply (IH (S k)); [lia|eauto|reflexivity].
   Qed.
 
   Lemma gen_handle_okc : okEj (gen_handle j).
@@ -532,7 +542,7 @@ Section Jout.
   Theorem gen_output_okc e : gen_output j = Ok e -> okEj e.
   Proof.
     unfold gen_output. intros H. inv_bind H. destruct x as [[sss se]|]; [|discriminate].
-    destruct (gen_steps_okc _ _ _ _ _ E sss se eq_refl) as [H1 H2].
+    destruct (gen_steps_okc _ _ _ _ _ (Nat.add_0_l _) E sss se eq_refl) as [H1 H2].
     assert (Htail : okSsj (match j_handler j with Some (_, h) => [SLet (PIdent n_h) (RUser h)] | None => [] end
                            ++ [SLet (PIdent n_rs) (RBlock sss se)])).
     { apply okSs_app; [destruct (j_handler j) as [[hk h]|]; auto with okc|auto with okc]. }
@@ -573,18 +583,20 @@ Definition allowed (cfg : config) (inp : input) (c : construct) : Prop :=
 Lemma async_path cfg inp : is_async cfg = true -> opt_default (eff_fcp cfg inp) [] = futures_path inp.
 Proof. intros Ha. unfold eff_fcp, futures_path. destruct (i_fcp inp); [reflexivity|]. rewrite Ha. reflexivity. Qed.
 
-Lemma allowedj_allowed cfg inp c : allowedj (the_jout cfg inp) c -> allowed cfg inp c.
+Lemma allowedj_allowed JX cfg inp c : allowedj JX (the_jout cfg inp) c -> allowed cfg inp c.
 Proof.
   destruct c; cbn [allowedj allowed the_jout j_cfg j_fcp j_lazy j_transpose j_joiner]; auto.
   - intros (Ha & Hs & ->). rewrite (async_path _ _ Ha). auto.
   - intros (Ha & ->). rewrite (async_path _ _ Ha). auto.
   - intros (Ha & -> & Ht & Hj). rewrite (async_path _ _ Ha). auto.
+  - tauto.
 Qed.
 
 Theorem gen_constructs_allowed cfg inp e :
   gen cfg inp = Ok e -> Forall (allowed cfg inp) (constructs e).
 Proof.
-  intros H. apply gen_ok_unfold in H as [_ H]. apply gen_output_okc in H.
+  intros H. apply gen_ok_unfold in H as [_ H].
+  apply (gen_output_okc (the_jout cfg inp) True) in H; [|intros; exact I].
   unfold okE in H. eapply Forall_impl; [|exact H]. intros c. apply allowedj_allowed.
 Qed.
 
